@@ -177,13 +177,24 @@ func approx(a, b float64) bool {
 	return math.Abs(a-b) <= 1e-9*(1+math.Abs(a)+math.Abs(b))
 }
 
+// exactLevels: the request lists its thresholds explicitly, so a reported threshold is one of the request's own numbers,
+// digit for digit (set by the oracles from the request's level function).
+var exactLevels bool
+
+func levelEq(a, b float64) bool {
+	if exactLevels {
+		return a == b
+	}
+	return approx(a, b)
+}
+
 func sameThresholds(got map[string]interface{}, want map[string]float64) bool {
 	if len(got) != len(want) {
 		return false
 	}
 	for k, v := range want {
 		g, ok := got[k].(float64)
-		if !ok || !approx(g, v) {
+		if !ok || !levelEq(g, v) {
 			return false
 		}
 	}
